@@ -116,6 +116,7 @@ def emit_variant(v):
             if v.par and r.is_lat:
                 val = 'std::sync::RwLock::new(%s)' % val
             out.append('            "%s" => { self.0.%s.push(%s); },' % (r.name, r.name, val))
+            out.append('            "%s!clear" => { self.0.%s = Default::default(); },' % (r.name, r.name))
         out.append('            _ => panic!("load: relation {} does not take input", rel),')
         out.append('         }')
         out.append('      }')
